@@ -322,7 +322,7 @@ func (u *Universe) wfd(x string, t types.Type, alloc string, d int) string {
 	case *types.Slice:
 		s := u.SortOf(t)
 		ln := "(len_" + s + " " + x + ")"
-		base := fmt.Sprintf("(>= %s 0) (=> (not (nn_%s %s)) (= %s 0))", ln, s, x, ln)
+		base := fmt.Sprintf("(>= %s 0) (<= %s 9223372036854775807) (=> (not (nn_%s %s)) (= %s 0))", ln, ln, s, x, ln)
 		iv := fmt.Sprintf("wf!i%d", d)
 		ew := u.wfd("(select (arr_"+s+" "+x+") "+iv+")", tt.Elem(), alloc, d+1)
 		if ew == "true" {
